@@ -72,6 +72,7 @@ def evaluate(case):
     base_nonref = [c for c in cites if not isinstance(c, ReferenceCitation)]
     fulls = [c for c in cites if isinstance(c, FullCaseCitation)]
     current = list(cites)
+    first_sig = [(kind(c), c.span()) for c in cites]
     planted = [m.group(1) for m in _PLANTED.finditer(text)]
     caps = _CAPS.findall(text)
     doc = call(Document, plain_text=text, markup_text="")
@@ -105,6 +106,26 @@ def evaluate(case):
                 return res
             merged = call(filter_citations, current + refs)
             tag = "merge"
+        elif op["op"] == "inplace_merge_then_reextract":
+            # the caller extends the list it got from get_citations IN PLACE, then asks for the citations of the same
+            # text again: the second answer must be as well-formed as the first
+            if not fulls:
+                continue
+            cite = fulls[op.get("cite", 0) % len(fulls)]
+            refs = call(extract_reference_citations, cite, doc)
+            if isinstance(refs, Raised):
+                res.label("raised")
+                return res
+            cites.extend(refs)
+            cites.reverse()
+            again2, _ = extract(case)
+            if isinstance(again2, Raised):
+                res.label("raised")
+                return res
+            check_order(res, again2, "reextract")
+            if [(kind(c), c.span()) for c in again2] != first_sig:
+                res.v("reextract:differs-from-first-extraction", f"step {step}: {[(kind(c), c.span()) for c in again2]} vs {first_sig}")
+            continue
         else:
             refs = []
             merged = call(filter_citations, list(current))
@@ -171,6 +192,7 @@ _op = st.one_of(
     st.fixed_dictionaries({"op": st.just("add_refs"), "cite": st.integers(0, 7), "field": st.integers(0, 1),
                            "source": st.sampled_from([0, 0, 0, 1, 2]), "name": st.integers(0, 30)}),
     st.just({"op": "refilter"}),
+    st.fixed_dictionaries({"op": st.just("inplace_merge_then_reextract"), "cite": st.integers(0, 7)}),
 )
 
 
